@@ -39,6 +39,8 @@ mod verif_c17 {
                     let mut ran = false;
                     let r = cell.get_or_try_init(|u| {
                         ran = true;
+                        // the seed is only ever handed out inside once_cell's (serialised) initialiser
+                        assert!(unsafe { once_cell::MODEL_IN_INIT } > 0, "the initialiser runs outside the OnceCell critical section: racing callers would all get &mut to the seed");
                         assert!(u.0 .1 == seed && *u.1 == seed); // the seed survived earlier failures
                         if bump { u.0 .1 = u.0 .1.wrapping_add(1); *u.1 = u.0 .1; }
                         if ok { Ok((Tk(1, u.0 .1 ^ 0x55), Box::new(u.0 .1 ^ 0x55))) } else { Err(7u8) }
@@ -108,6 +110,7 @@ mod verif_c17 {
                 let mut ran = false;
                 let r = cell.get_or_try_init(|u| {
                     ran = true;
+                    assert!(unsafe { once_cell::MODEL_IN_INIT } > 0, "the initialiser runs outside the OnceCell critical section: racing callers would all get &mut to the seed");
                     assert!(*u == seed);
                     if bump { *u = u.wrapping_add(1); }
                     if ok { Ok((Tk(1, *u ^ 0x55), Box::new(*u))) } else { Err(()) }
